@@ -375,6 +375,18 @@ impl DiskIO {
         let size = (count * FEOX_BLOCK_SIZE as u64) as usize;
         let offset = sector * FEOX_BLOCK_SIZE as u64;
 
+        #[cfg(all(feoxdb_verif, unix))]
+        if let (Some(sim), true) = (&self.sim, self._use_direct_io) {
+            // O_DIRECT behaviour of a simulated device: the read lands in an aligned buffer,
+            // exactly as in the branch below
+            let mut buffer = AlignedBuffer::new(size)?;
+            buffer.set_len(size);
+            crate::verif::check_direct_io(buffer.as_ptr(), size, offset).map_err(FeoxError::IoError)?;
+            let data = sim.read(offset, size).map_err(FeoxError::IoError)?;
+            buffer.as_mut_slice().copy_from_slice(&data);
+            return Ok(buffer.as_slice().to_vec());
+        }
+
         #[cfg(feoxdb_verif)]
         if let Some(sim) = &self.sim {
             return sim.read(offset, size).map_err(FeoxError::IoError);
@@ -486,6 +498,20 @@ impl DiskIO {
     pub fn write_sectors_sync(&self, sector: u64, data: &[u8]) -> Result<()> {
         self.ensure_writable()?;
         let offset = sector * FEOX_BLOCK_SIZE as u64;
+
+        #[cfg(all(feoxdb_verif, unix))]
+        if let (Some(sim), true) = (&self.sim, self._use_direct_io) {
+            // O_DIRECT behaviour of a simulated device: the write goes out of an aligned copy,
+            // exactly as in the branch below
+            let mut aligned_buffer = AlignedBuffer::new(data.len())?;
+            aligned_buffer.set_len(data.len());
+            aligned_buffer.as_mut_slice().copy_from_slice(data);
+            crate::verif::check_direct_io(aligned_buffer.as_ptr(), aligned_buffer.len(), offset)
+                .map_err(FeoxError::IoError)?;
+            return sim
+                .write(offset, aligned_buffer.as_slice())
+                .map_err(FeoxError::IoError);
+        }
 
         #[cfg(feoxdb_verif)]
         if let Some(sim) = &self.sim {
